@@ -745,7 +745,16 @@ def rule_latch(R):
     R.floor("latch", n, 3, "inbound error sites")
 
 
+def rule_decode_variants(R):
+    """a spec-valid packet is accepted with exactly the field values sent: every property identifier decodes to its own
+    Property variant (a Topic Alias Maximum read as Receive Maximum shrinks the window or rejects a legal CONNACK) --
+    C20's / C09's read table, evaluated here"""
+    from .c20 import rule_decode as _r
+    _r(R)
+
+
 def run(R):
+    R.rule("decode", rule_decode_variants)
     R.rule("panic", rule_panic)
     R.rule("unreachable", rule_unreachable)
     R.rule("tables", rule_tables)
